@@ -346,6 +346,95 @@ class Gen:
                 self.body(d)
 
 
+TEARDOWN = ['quit 0', 'dispatch'] + ['ret 1'] * 4 + ['ctx_dereg'] + ['ret 1'] * 6 + ['leakcheck']
+
+
+def scenario(rng, kind=None):
+    """directed skeletons for interactions of several features that random programs compose too rarely (each with random
+    parameters); every one ends with a complete teardown and the leak check"""
+    r = rng
+    kind = kind or r.choice(['pill_batch_dereg', 'paused_flush', 'oneshot_stop', 'replace_inflight', 'stash_slices', 'tb_reconf',
+                             'tick_eval', 'tb_batch', 'errno_batch', 'dup_refused', 'far_timers', 'refuse_self'])
+    L = ['ctx_reg %d' % r.randrange(2)]
+    af = lambda: r.randrange(2)
+    if kind == 'pill_batch_dereg':
+        # events parked in a batch, a pill behind them, the handler deregisters its module through its only reference
+        k = r.randrange(2, 5); j = r.randrange(1, k)
+        L += ['reg h0 A - %s' % r.choice(['-', 't', 'st'])]
+        if r.random() < 0.7: L += ['unref h0']
+        L += ['start h0'] + (['ret 1'] if True else [])
+        L += ['batch_size h0 %d' % k] + ['tell h0 h0 p%d %d' % (i + 1, af()) for i in range(j)] + ['dispatch'] * j
+        L += ['pill h0 h0', 'dispatch', r.choice(['dereg h0', 'stop h0', 'unstash h0 1', 'ret 1']), 'ret 1', 'ret 1']
+    elif kind == 'paused_flush':
+        # messages sent to a PAUSED module, which is then stopped / deregistered while still paused
+        n = r.randrange(1, 4)
+        L += ['reg h0 A - -', 'reg h1 B - %s' % r.choice(['-', 't']), 'start h0', 'start h1', 'dispatch', 'pause h1']
+        L += [r.choice(['tell h0 h1 p%d %d', 'tell h0 h1 p%d %d', 'pub h0 - p%d %d']) % (i + 1, af()) for i in range(n)]
+        L += [r.choice(['stop h1', 'dereg h1', 'resume h1', 'dereg h0']), 'ret 1']
+        if r.random() < 0.5: L += ['unref h0', 'unref h1']
+    elif kind == 'oneshot_stop':
+        # several descriptors ready in one batch; the first handler stops / pauses / deregisters things
+        L += ['reg h0 A - -', 'reg h1 B - -', 'start h0', 'start h1']
+        L += ['reg_fd h0 f0 %s u1' % r.choice(['-', 'o', 'a', 'oa', 'd']), 'reg_fd h0 f1 %s u2' % r.choice(['-', 'o']), 'reg_fd h1 f2 %s u3' % r.choice(['-', 'o', 'a'])]
+        L += ['make_ready f0', 'make_ready f1', 'make_ready f2', 'dispatch', 'dispatch']
+        L += [r.choice(['stop h0', 'pause h0', 'dereg h1', 'dereg_fd h0 f1', 'stop h1', 'errno 9']), 'ret 1', 'ret 1', 'ret 1', 'dispatch', 'ret 1', 'ret 1']
+    elif kind == 'replace_inflight':
+        # a module is replaced by name while messages from / to it are in flight
+        L += ['reg h0 A R %s' % r.choice(['-', 't']), 'reg h1 B - -', 'start h0', 'start h1', 'dispatch']
+        L += ['tell h0 h1 p1 %d' % af(), 'tell h1 h0 p2 %d' % af(), 'reg h2 A %s -' % r.choice(['-', 'R']), 'ret 1']
+        if r.random() < 0.6: L += ['unref h0']
+        L += ['dispatch', 'ret 1', 'dispatch', 'ret 1']
+    elif kind == 'stash_slices':
+        # a handler stashes what it was given; the stash is handed back in slices
+        k = r.randrange(2, 5)
+        L += ['reg h0 A - -', 'start h0', 'batch_size h0 %d' % k] + ['tell h0 h0 p%d 0' % (i + 1) for i in range(k)] + ['dispatch'] * (k + 1)
+        L += ['stash h0 %d' % i for i in range(r.randrange(1, k + 1))] + ['ret 1']
+        for _ in range(r.randrange(1, 4)):
+            L += ['unstash h0 %d' % r.choice([0, 1, 1, 2, 9]), 'ret 1']
+        L += [r.choice(['stop h0', 'dereg h0', 'srclen h0']), 'ret 1']
+    elif kind == 'tb_reconf':
+        # a bucket is configured, drained, reconfigured (rates that share low bits), stopped, restarted
+        L += ['reg h0 A - -', 'tb h0 %d %d' % (r.choice([1, 65536, 131072, 10 ** 9]), r.randrange(1, 4)), 'start h0']
+        L += ['become h0 %d' % r.randrange(1, 8) for _ in range(r.randrange(0, 5))]
+        L += ['tb h0 %d %d' % (r.choice([0, 1, 2, 65536, 10 ** 9]), r.randrange(1, 4))] + ['dispatch'] * r.randrange(0, 3)
+        L += ['become h0 2', r.choice(['stop h0', 'pause h0', 'srclen h0']), 'start h0'] + ['become h0 %d' % i for i in range(1, r.randrange(2, 8))] + ['dispatch', 'become h0 1']
+    elif kind == 'tick_eval':
+        # a context woken only by its tick; evaluation callbacks change their mind over time
+        L += ['reg h0 A - e', 'reg h1 B - %s' % r.choice(['e', '-', 'se']), 'tick 1', 'dispatch', 'ret 0', 'ret %d' % r.randrange(2)]
+        L += ['dispatch', 'ret %d' % r.randrange(2), 'ret 1', 'dispatch', 'ret 1', 'ret 1', 'dispatch', 'ret 1']
+    elif kind == 'tb_batch':
+        # events held back by batching while the bucket's refill timer (1 ns) keeps firing
+        k = r.randrange(2, 5)
+        L += ['reg h0 A - -', 'start h0', 'tb h0 1000000000 %d' % r.randrange(2, 6), 'batch_size h0 %d' % k]
+        L += ['tell h0 h0 p%d 0' % (i + 1) for i in range(k - 1)] + ['dispatch'] * (k + 1) + ['ret 1']
+    elif kind == 'errno_batch':
+        # several mailboxes / descriptors ready in one batch; an early callback leaves errno behind
+        L += ['reg h0 A - -', 'reg h1 B - -', 'reg h2 C - -', 'start h0', 'start h1', 'start h2', 'dispatch']
+        L += ['tell h0 h1 p1 %d' % af(), 'tell h0 h2 p2 %d' % af(), 'tell h0 h0 p3 0', 'dispatch', 'errno %d' % r.choice([2, 9, 11, 22]), 'ret 1', 'errno 4', 'ret 1', 'ret 1']
+        L += ['quit %d' % r.randrange(1, 200), 'dispatch', 'ret 1']
+    elif kind == 'dup_refused':
+        # a descriptor the poll set refuses, with and without a duplicate made by the library
+        L += ['reg h0 A - -', 'start h0', 'reg_fd h0 f%d %s u1' % (r.choice([6, 7]), r.choice(['d', 'ad', '-', 'a'])), 'srclen h0',
+              'reg_fd h0 f0 %s u2' % r.choice(['d', 'ad']), 'srclen h0', r.choice(['stop h0', 'dereg h0', 'dereg_fd h0 f0'])]
+    elif kind == 'far_timers':
+        # timer periods that differ by more than 32 bits, registered and removed in several orders
+        base = 10 ** 12
+        per = [base, base + 2 ** 32, base + 2 ** 33, base - 2 ** 32, base + 2 ** 31 + 5, base + 2 ** 34]
+        r.shuffle(per)
+        L += ['reg h0 A - -'] + ['reg_tmr h0 %d - u%d' % (p, i + 1) for i, p in enumerate(per[:r.randrange(3, 6)])] + ['srclen h0']
+        L += ['dereg_tmr h0 %d' % r.choice(per) for _ in range(r.randrange(1, 4))] + ['srclen h0'] + ['reg_tmr h0 %d - u9' % r.choice(per), 'srclen h0']
+    elif kind == 'refuse_self':
+        # a start hook that acts on its own module and then refuses
+        L += ['reg h0 A - %s' % r.choice(['s', 'st', 'ste']), 'reg h1 B - -', 'sub h1 LIBMODULE_MOD_STOPPED - 0 u1', 'sub h1 LIBMODULE_MOD_STARTED - 0 u2', 'start h1', 'dispatch']
+        L += ['start h0', r.choice(['pause h0', 'stop h0', 'dereg h0', 'resume h0', 'start h0']), 'ret 0', 'ret 1', 'ret 1', 'dispatch', 'ret 1', 'dispatch', 'ret 1']
+    # a little noise
+    for _ in range(r.choice([0, 0, 1, 2])):
+        L.insert(r.randrange(1, len(L) + 1), r.choice(['ret 1', 'dispatch', 'srclen h0', 'ctx_len', 'pause h0', 'resume h0']))
+    L += TEARDOWN
+    k = first_illformed(L)
+    return L[:k] if k is not None else L
+
+
 def gen_script(rng, alphabet, n_ops, max_mods=4, depth=2, teardown=0.4):
     g = Gen(rng, alphabet, max_mods, depth)
     for _ in range(n_ops):
